@@ -969,6 +969,20 @@ class Interpreter(BaseInterpreter[TContext, TEvent]):
             if explicit_id
             else f"{self.id}:{actor_machine_key}:{uuid.uuid4()}"
         )
+        # ♻️ Re-using an id replaces the registration below. The previous
+        #    actor must be stopped first: otherwise it is unreachable by id,
+        #    absent from `_actors` (so `stop()` never reaches it) and its run
+        #    loop and timers keep running - an orphan that outlives the parent.
+        previous = self._actors.pop(actor_id, None)
+        if previous is not None:
+            logger.warning(
+                "⚠️ Actor id '%s' is already in use; stopping the previous "
+                "actor before spawning its replacement.",
+                actor_id,
+            )
+            stopped = previous.stop()
+            if inspect.isawaitable(stopped):
+                await stopped
         child_interpreter = Interpreter(actor_machine)
         child_interpreter.parent = self
         child_interpreter.id = actor_id
